@@ -127,7 +127,7 @@ def make_case(prop, seed, i, tier):
         spec = G.perturb_fixture(rng, fixtures()[name])
         spec["sim"]["max_time"] = 60
     else:
-        spec = G.gen_random(rng, G.profile(facility_rich=rng.random() < 0.35, max_time=60, ensure_worker=0.9))
+        spec = G.gen_random(rng, G.profile(facility_rich=rng.random() < 0.35, max_time=60, ensure_worker=0.9, boundary=0.3))
         if rng.random() < 0.1:
             G.add_idle_parts(rng, spec)
     if rng.random() < 0.5:
